@@ -231,8 +231,10 @@ u_cfg(uint64_t idx, void *arg)
     vh_unit_rng(&r, "cfg", idx);
     struct cfg c;
     c.size = (size_t)(idx & 0xff);
-    c.place = ps_places[(idx >> 8) & 3];
-    c.ck = (int)((idx >> 10) & 3);
+    c.ck = (int)((idx >> 11) & 3);
+    c.place = ps_place_of((int)((idx >> 8) & 7), c.ck, c.size);
+    if (((idx >> 8) & 7) == 4)
+        VH_COUNT("placement with the last octet at the top of the address space");
     ncase = 0;
     img(imgA, c.size, 1);
     img(imgB, c.size, 2);
@@ -288,11 +290,11 @@ harness_run(void)
     const size_t *sizes = vh_tier ? thorough_sizes : quick_sizes;
     size_t nsizes = vh_tier ? sizeof thorough_sizes / sizeof thorough_sizes[0] : sizeof quick_sizes / sizeof quick_sizes[0];
     for (size_t i = 0; i < nsizes; i++)
-        for (uint64_t pl = 0; pl < 4; pl++)
+        for (uint64_t pl = 0; pl < PS_NPLACES; pl++)
             for (uint64_t ck = 0; ck < NCK; ck++) {
-                if (!vh_tier && sizes[i] > 9 && pl != (sizes[i] + ck) % 4)
+                if (!vh_tier && sizes[i] > 9 && pl != 4 && pl != (sizes[i] + ck) % 4)
                     continue;
-                vh_unit("cfg", (uint64_t)sizes[i] | (pl << 8) | (ck << 10), u_cfg, NULL);
+                vh_unit("cfg", (uint64_t)sizes[i] | (pl << 8) | (ck << 11), u_cfg, NULL);
             }
     static const char *req[] = { "crash image: checksum matches data (validation must succeed)",
                                  "crash image: checksum does not match data (validation must fail)",
@@ -303,7 +305,8 @@ harness_run(void)
                                  "fault injected: store_part read fails", "fault injected: store_part read short",
                                  "fault injected: store_part write fails", "fault injected: reset write short",
                                  "fault injected: validate read fails", "fault injected: validate read short",
-                                 "fault injected: fetch read short", "fault injected: fetch_part read fails" };
+                                 "fault injected: fetch read short", "fault injected: fetch_part read fails",
+                                 "placement with the last octet at the top of the address space" };
     for (size_t i = 0; i < sizeof req / sizeof req[0]; i++)
         vh_require(req[i]);
 }
